@@ -1,0 +1,62 @@
+//go:build verif
+
+// Package verifhook provides observation points for external verification
+// harnesses. With the "verif" build tag a harness may register a callback
+// that is invoked at every Point; a stand-alone binary obeys
+// VERIF_HOOKS="name=sleep:<ms>,name2=sleep:<ms>".
+package verifhook
+
+import (
+	"os"
+	"strconv"
+	"strings"
+	"sync"
+	"sync/atomic"
+	"time"
+)
+
+// Func is the signature of a hook callback.
+type Func func(name string, arg any)
+
+var cb atomic.Pointer[Func]
+
+// Set registers (or, with nil, removes) the process-wide callback.
+func Set(f Func) {
+	if f == nil {
+		cb.Store(nil)
+		return
+	}
+	cb.Store(&f)
+}
+
+var (
+	envOnce   sync.Once
+	envSleeps map[string]time.Duration
+)
+
+func loadEnv() {
+	envSleeps = map[string]time.Duration{}
+	for _, kv := range strings.Split(os.Getenv("VERIF_HOOKS"), ",") {
+		name, act, ok := strings.Cut(kv, "=")
+		if !ok {
+			continue
+		}
+		if ms, found := strings.CutPrefix(act, "sleep:"); found {
+			if n, err := strconv.Atoi(ms); err == nil {
+				envSleeps[name] = time.Duration(n) * time.Millisecond
+			}
+		}
+	}
+}
+
+// Point reports that execution reached the named point.
+func Point(name string, arg any) {
+	if f := cb.Load(); f != nil {
+		(*f)(name, arg)
+		return
+	}
+	envOnce.Do(loadEnv)
+	if d, ok := envSleeps[name]; ok {
+		time.Sleep(d)
+	}
+}
